@@ -314,6 +314,8 @@ pub struct RunLog {
     pub calls: Vec<super::Call>,
     pub dispatched: Vec<verif_hooks::Dispatched>,
     pub observed: Vec<verif_hooks::FinishObserved>,
+    /// H4: completions at the moment the attempt queued its notification for the main loop.
+    pub notified: Vec<verif_hooks::FinishObserved>,
     pub quiescent: Vec<Quiescent>,
     pub polls: usize,
     pub end: RunEnd,
@@ -521,6 +523,7 @@ pub fn prepare(case: &RCase) -> (LabParser, Arc<AtomicU64>) {
     });
     let _ = verif_hooks::take_dispatched();
     let _ = verif_hooks::take_observed();
+    let _ = verif_hooks::take_notified();
     verif_hooks::set_idle_limit(IDLE_LIMIT);
     let _ = verif_hooks::reset_idle_turns();
     install_probe_hook();
@@ -789,6 +792,7 @@ pub fn run_with(case: &RCase, sched: &mut Schedule<'_>, poll: &mut dyn FnMut(&mu
         calls,
         dispatched: verif_hooks::take_dispatched(),
         observed: verif_hooks::take_observed(),
+        notified: verif_hooks::take_notified(),
         quiescent,
         polls,
         end,
